@@ -331,6 +331,20 @@ Clauses(S, P, hasPrev, TauSet) ==   \* S = this solve's observation, P = previou
               THEN {<<"C11", "residual-is-not-minus-barsj0", 0>>} ELSE {}
       c11g == IF wellFormed /\ solved /\ S.opts.mode = "primal" /\ (S.tau > Len(tkAll.xx) \/ Abs(S.retv - tkAll.xx[S.tau]) > 1)
               THEN {<<"C11", "returned-value-is-not-tau", 0>>} ELSE {}
+      \* the heuristic objective: the k-th putbarcj puts <W_k, G> on matrix variable 0, W_k the k-th weight handed to
+      \* heuristic() - as a lower-triangular sparse symmetric matrix whose entries ARE the entries of W (MOSEK counts an
+      \* off-diagonal entry of the lower triangle for both sides)
+      heurEvs == SelectSeq(S.phases, LAMBDA e : e.ev = "heuristic")
+      WEntry(h, i, j) == h.W[i * h.n + j + 1]                           \* 0-based (i, j), row-major
+      HeurBad(k) == LET bc == tkAll.barclog[k]  h == heurEvs[k] IN
+                    \/ bc.bar # 0 \/ Len(bc.mats) # 1
+                    \/ LET m == tkAll.mats[bc.mats[1] + 1] IN
+                       \/ m.dim # h.n
+                       \/ \E q \in 1..Len(m.i) : Abs(m.x[q] - WEntry(h, m.i[q], m.j[q])) > 1
+                       \/ \E i \in 0..(h.n - 1) : \E j \in 0..i : Abs(WEntry(h, i, j)) > 1 /\ ~\E q \in 1..Len(m.i) : m.i[q] = i /\ m.j[q] = j
+      c11h == IF ~(hasTask /\ tkAll.bad = {}) THEN {}
+              ELSE IF Len(tkAll.barclog) # Len(heurEvs) THEN {<<"C11", "heuristic-objective-not-set-once-per-heuristic-call", Len(tkAll.barclog)>>}
+              ELSE {<<"C11", "heuristic-objective-is-not-the-weight-matrix", k>> : k \in {q \in 1..Len(heurEvs) : HeurBad(q)}}
       \* cross back-end: this solve is the twin (same program, other back-end) of the previous one
       twin == hasPrev /\ S.edit = "twin"
       c11x == IF ~twin THEN {}
@@ -344,7 +358,7 @@ Clauses(S, P, hasPrev, TauSet) ==   \* S = this solve's observation, P = previou
      \cup c02a \cup c02b \cup c02c \cup c02d \cup c02e \cup c02f \cup c02g \cup c02h \cup c02i \cup c02j
      \cup c14a \cup c14b \cup c14c \cup c14d \cup c14e
      \cup c13a \cup c13b \cup c13c \cup c13d \cup c13e \cup c13f
-     \cup c11a \cup c11b \cup c11c \cup c11d \cup c11e \cup c11f \cup c11g \cup c11x
+     \cup c11a \cup c11b \cup c11c \cup c11d \cup c11e \cup c11f \cup c11g \cup c11h \cup c11x
 Tag(step, cl) == {<<step, c[1], c[2], c[3]>> : c \in cl}
 TInit == /\ tid \in 1..Len(Traces)
          /\ l = 1
